@@ -28,6 +28,14 @@ HYGIENE_RE = re.compile(
     r'Unset Universe Checking|type-in-type|impredicative-set')
 
 
+_UUID_CNT = [0]
+
+
+def reset_uuid():
+    """restart the deterministic uuid4 sequence (call at the start of every image build whose bytes are compared)"""
+    _UUID_CNT[0] = 0
+
+
 def setup_impl_path():
     """Make `import pycdlib` resolve to /repo's working tree and make the library
     byte-deterministic (fixed clock, uuid, random) inside this process."""
@@ -38,7 +46,7 @@ def setup_impl_path():
     import uuid
     _real_time = time.time
     time.time = lambda: 1700000000.0
-    cnt = [0]
+    cnt = _UUID_CNT
 
     def _uuid4():
         cnt[0] += 1
